@@ -12,6 +12,22 @@ def main():
         if fails: print('xlate failures:', json.dumps(fails)[:2000])
         ok, log = lake_build([])
         print(log[-3000:] if not ok else 'lake build ok')
+        sys.path.insert(0, os.path.join(VERIF, 'tools'))
+        import mkmain
+        drvs = ['drv_' + h.lower() for h in mkmain.handlers()]
+        okd, logd = lake_build(drvs)
+        print(logd[-3000:] if not okd else 'drivers ok: ' + ' '.join(drvs))
+        if not (ok and okd):
+            # isolate: a module of an unclaimed / in-progress property must not take the claimed checks down
+            man0 = json.load(open(os.path.join(VERIF, 'MANIFEST.json')))
+            ok = True
+            for c in man0.get('checks', []):
+                pid = c['property_id']
+                o1, l1 = lake_build(['SpectraVerif.Properties.' + pid])
+                if not o1: ok = False; print('FAILED to build claimed property', pid, l1[-1500:])
+            for d in drvs:
+                o2, l2 = lake_build([d])
+                if not o2: print('driver failed:', d, l2[-800:])
     man = json.load(open(os.path.join(VERIF, 'MANIFEST.json')))
     hs = man.get('x_harnesses', [])
     def b(h):
